@@ -259,6 +259,25 @@ pub fn run_item(w: &Work, ctx: &mut Ctx, mut i: usize) {
                 continue;
             }
             total(ctx, &format!("c07:range:{}:{k}", file.name), &file.text, &c, Some(r), "hostile-range");
+            // the same ranges while requires are sorted (groups with members out of range)
+            if file.text.contains("require") || file.text.contains("GetService") {
+                let mut cs = c.clone();
+                cs.sort_requires = true;
+                total(ctx, &format!("c07:range+sort:{}:{k}", file.name), &file.text, &cs, Some(r), "hostile-range-sort");
+            }
+        }
+        // ranges that begin (or end) at each of the first statements of a file with requires
+        if file.text.contains("require") || file.text.contains("GetService") {
+            if let Some(ast) = fmt::parse(&file.text, &c) {
+                let infos = crate::stmts::collect(&ast);
+                let mut cs = c.clone();
+                cs.sort_requires = true;
+                for (k, st) in infos.iter().filter(|s| s.depth == 0).take(if quick { 6 } else { 24 }).enumerate() {
+                    total(ctx, &format!("c07:range+sort:{}:from{k}", file.name), &file.text, &cs, Some((Some(st.start), None)), "statement-range-sort");
+                    total(ctx, &format!("c07:range+sort:{}:to{k}", file.name), &file.text, &cs, Some((None, Some(st.end))), "statement-range-sort");
+                    total(ctx, &format!("c07:range+sort:{}:only{k}", file.name), &file.text, &cs, Some((Some(st.start), Some(st.end))), "statement-range-sort");
+                }
+            }
         }
         return;
     }
